@@ -8,7 +8,9 @@ The routine's statements are walked in program order -- into `try` bodies, `fina
 `pq` and the parquet writer is mapped to a call of coq/Model/DurableBase.v:
 
     tempfile.mkstemp / tempfile.NamedTemporaryFile(delete=False)   Create tmp
-    os.write(fd, content)  /  self._writer.close()                  Write tmp c
+    os.write(fd, content), or the write-everything loop
+      `while len(buf) > 0: n = os.write(fd, buf); [if n <= 0: raise]; buf = buf[n:]`,
+      or self._writer.close()                                       Write tmp c
     os.fsync(fd) with fd bound to the temp file (mkstemp's fd, or os.open(temp_name))   Fsync tmp
     os.replace(temp, final)                                         Rename tmp p
     os.fsync(fd) with fd bound by os.open(<dirname of the final path>)                  FsyncDir (dir_of p)
@@ -76,6 +78,9 @@ def _ordered_calls(stmts: List[ast.stmt]) -> List[Tuple[ast.Call, Optional[str]]
                     expr_calls(it.context_expr, None)
                 walk(s.body)
             elif isinstance(s, (ast.For, ast.While)):
+                wa = _is_write_all_loop(s)
+                if wa is not None:
+                    WRITE_ALL.add(id(wa))
                 expr_calls(s.iter if isinstance(s, ast.For) else s.test, None)
                 depth[0] += 1
                 walk(s.body)
@@ -104,6 +109,43 @@ def _ordered_calls(stmts: List[ast.stmt]) -> List[Tuple[ast.Call, Optional[str]]
 
 
 IN_LOOP: set = set()      # ids of Call nodes that sit inside a loop (repeatable: not allowed for OS calls)
+WRITE_ALL: set = set()    # ids of os.write calls inside a recognised write-all loop (one Write of the whole content)
+
+
+def _is_write_all_loop(loop: ast.AST) -> Optional[ast.Call]:
+    """`while len(buf) > 0: n = os.write(fd, buf); [if n <= 0: raise ...]; buf = buf[n:]`
+    -- the POSIX write-everything idiom; returns its os.write call.  It transfers exactly the buffer's
+    content, so it is ONE `Write tmp c` of the model."""
+    if not isinstance(loop, ast.While) or loop.orelse:
+        return None
+    t = loop.test
+    if not (isinstance(t, ast.Compare) and len(t.ops) == 1 and isinstance(t.ops[0], ast.Gt)
+            and isinstance(t.left, ast.Call) and isinstance(t.left.func, ast.Name) and t.left.func.id == "len"
+            and len(t.left.args) == 1 and isinstance(t.left.args[0], ast.Name)
+            and isinstance(t.comparators[0], ast.Constant) and t.comparators[0].value == 0):
+        return None
+    buf = t.left.args[0].id
+    body = list(loop.body)
+    if len(body) not in (2, 3):
+        return None
+    a = body[0]
+    if not (isinstance(a, ast.Assign) and len(a.targets) == 1 and isinstance(a.targets[0], ast.Name)
+            and isinstance(a.value, ast.Call) and _call_name(a.value) == "os.write" and len(a.value.args) == 2
+            and isinstance(a.value.args[1], ast.Name) and a.value.args[1].id == buf):
+        return None
+    n = a.targets[0].id
+    if len(body) == 3:
+        g = body[1]
+        if not (isinstance(g, ast.If) and not g.orelse and len(g.body) == 1 and isinstance(g.body[0], ast.Raise)
+                and isinstance(g.test, ast.Compare) and isinstance(g.test.left, ast.Name) and g.test.left.id == n):
+            return None
+    z = body[-1]
+    if not (isinstance(z, ast.Assign) and len(z.targets) == 1 and isinstance(z.targets[0], ast.Name) and z.targets[0].id == buf
+            and isinstance(z.value, ast.Subscript) and isinstance(z.value.value, ast.Name) and z.value.value.id == buf
+            and isinstance(z.value.slice, ast.Slice) and isinstance(z.value.slice.lower, ast.Name) and z.value.slice.lower.id == n
+            and z.value.slice.upper is None and z.value.slice.step is None):
+        return None
+    return a.value
 
 
 def _name(e: ast.AST) -> str:
@@ -126,7 +168,7 @@ def _sequence(calls: List[Tuple[ast.Call, Optional[str]]], temp_vars: set, final
     seq: List[str] = []
     for c, tgt in calls:
         nm = _call_name(c)
-        if id(c) in IN_LOOP and (nm.startswith(("os.", "tempfile.", "pq.")) or nm == "open" or nm == writer_close) and nm not in IGNORED_OS:
+        if id(c) in IN_LOOP and id(c) not in WRITE_ALL and (nm.startswith(("os.", "tempfile.", "pq.")) or nm == "open" or nm == writer_close) and nm not in IGNORED_OS:
             raise Unsupported(f"{nm} inside a loop in a publish routine")
         if nm == "tempfile.mkstemp":
             if not tgt or "," not in tgt:
